@@ -411,46 +411,29 @@ Definition pols_step (n : nat) (m : mstate) (o : op) : list policy :=
 Fixpoint pols_run (n : nat) (m : mstate) (ops : list op) : list policy :=
   match ops with [] => [] | o :: r => pols_step n m o ++ pols_run n (fst (stepM n m o)) r end.
 
-(* ---- fmakunbound: guard -----------------------------------------------------------------------------------
-   slip's fmakunbound removes the creator of the name but neither resets the registered Lambda nor the compiled
-   callers (known findings C08-fmakunbound-...): while the name is unbound a caller compiled earlier still runs the
-   old definition, and a call of the name compiled meanwhile registers a new placeholder that orphans the old
-   Lambda.  Theorems: histories without OFmak (`no_fmak`).  Correspondence: the finer executable guard `fguards`:
-   an OFmak f is inside the guard when it is followed - after reads only - by the evaluation or compilation of a
-   code object whose FIRST form is a top-level defun of f whose body does not mention f; after that form the
-   name has its creator back and the registered Lambda the new definition.  Everything after an OFmak that is not
-   of this shape is outside the guard. *)
+(* ---- fmakunbound -------------------------------------------------------------------------------------------
+   Since repo_fixes/C08-5 and C08-6 fmakunbound turns the registered Lambda into the Lambda of an undefined function
+   and CompileList reuses it, so M follows S after a fmakunbound as well; the correspondence compares every
+   outcome of every history with S.  The history THEOREMS are still stated for the histories without OFmak
+   (`no_fmak`): the invariant of Proofs.v has no clause for a registered Lambda without a creator yet.  After a
+   fmakunbound the lookup time of the undefined name differs between call sites (compiled earlier: after the
+   arguments; list form: before), which the per-name policy of evalL does not express: the exactness self-check
+   of the correspondence covers the observations before the first OFmak (`before_fmak`). *)
 Fixpoint no_fmak (ops : list op) : bool :=
   match ops with [] => true | OFmak _ :: _ => false | _ :: r => no_fmak r end.
-Fixpoint mentions (f : string) (e : sexp) : bool :=
-  match e with
-  | SSym x => String.eqb x f
-  | SList _ xs => (fix go (l : list sexp) : bool := match l with [] => false | x :: r => mentions f x || go r end) xs
-  | _ => false
-  end.
-Definition redefines_first (f : string) (fs : list tform) : bool :=
-  match fs with
-  | TForm e :: _ => match parse_defun e with
-                    | Some (nm, ps, body) => String.eqb nm f && negb (existsb (mentions f) body)
-                    | None => false end
-  | _ => false
-  end.
-(* one flag per observation (OCompile / ORun), following the code store of M's run; `pend`: the name made unbound
-   and not yet redefined *)
-Fixpoint fguards (n : nat) (m : mstate) (g : bool) (pend : option string) (ops : list op) : list bool :=
+(* one flag per observation (OCompile / ORun of an existing code object): no OFmak so far *)
+Fixpoint before_fmak (n : nat) (m : mstate) (g : bool) (ops : list op) : list bool :=
   match ops with
   | [] => []
   | o :: r =>
       let m' := fst (stepM n m o) in
       match o with
-      | OLoad _ _ => fguards n m' g pend r
-      | OFmak f => fguards n m' (g && match pend with None => true | Some _ => false end) (Some f) r
+      | OLoad _ _ => before_fmak n m' g r
+      | OFmak _ => before_fmak n m' false r
       | OCompile cid | ORun cid =>
           match nlookup cid (codes m) with
-          | None => fguards n m' g pend r
-          | Some fs =>
-              let g' := g && match pend with None => true | Some f => redefines_first f fs end in
-              g' :: fguards n m' g' None r
+          | None => before_fmak n m' g r
+          | Some _ => g :: before_fmak n m' g r
           end
       end
   end.
